@@ -184,6 +184,8 @@ structure DR where
   /-- account→confidential transactions whose fee does not cover the value-proportional gas of what they bring in as `CheckStoreState`
   computes it inside a block (the amount in wei, rounded UP to the fee step): a block holding one is execution-invalid -/
   feelow : List Nat := []
+  /-- real genesis: number of candidates (award payees: their coinbases, then their supporters: `x.yw`) -/
+  sys : Option Nat := none
 
 /-- book the value of the successful value-carrying calls among the transactions `ids` (with receipt statuses `sts`) -/
 def bookCalls (vcalls : List (Nat × Nat × Int)) (ids : List Nat) (sts : List Bool) (s : St) : St :=
@@ -386,6 +388,61 @@ def stepR (d : Option DR) (toks : List String) : Option DR × String :=
       let d2 := if s'.blocks.length > old then commitX d1 ((d.map (·.s)).getD s') (s'.blocks.getLast?.getD []) [] s'' else d1
       (some d2, a)
 
-def machine : Machine := { σ := Option DR, init := none, step := stepR }
+/-! Real genesis (`syschain`): the same ledger, plus the award payees in wei (Model.LedgerX `yw`, `fw`).  What a block paid
+them travels in the `awards` op (from the dry run: the model does not execute the WASM foundation contract) and is booked as
+`Prim.award` moves out of the foundation. -/
+
+def wei (u : Int) : Int := u * unitWei
+
+/-- the pledge contract's balance at the real genesis: per candidate i the 5·10^6 coin pledge and its supporter's deposit -/
+def sysConst (cands : Nat) : Int :=
+  ((List.range cands).map (fun i => ((5000000 : Int) + 10000 * (1 + ((i * 7) % 5 : Nat))) * 1000000000000000000)).sum
+
+def intsOf (s : String) : List Int := (s.splitOn ",").filterMap String.toInt?
+
+def sbalLine (s : St) (x : XS) (n : Nat) : String :=
+  let ws := s.wallets.map (fun outs => "+".intercalate (sortStr ((outs.filter (!·.spent)).map (fun o => toString o.amount))))
+  s!"a={showList s.bal} t={showList s.tok} fw={foundationWei s x} cb={showList (x.yw.take n)} sup={showList (x.yw.drop n)} w={"|".intercalate ws} pool={pool s} supply={nativeTotalWei s x + sysConst n} toksupply={tokenTotal s x}"
+
+def srecsLine (s : St) (x : XS) (s0 : St) (x0 : XS) (n : Nat) : String :=
+  let dy := diffList x.yw x0.yw
+  let other := wei ((diffList x.xb x0.xb).sum + x.rx.sum + (s.zero - s0.zero))
+  s!"a={showList ((diffList s.bal s0.bal).map wei)} t={showList ((diffList s.tok s0.tok).map wei)} f={foundationWei s x - foundationWei s0 x0} cb={showList (dy.take n)} sup={showList (dy.drop n)} pl=0 p={wei (pool s - pool s0)} other={other} mint=0 unk=0"
+
+def stepS (d : Option DR) (toks : List String) : Option DR × String :=
+  match toks with
+  | "syschain" :: rest =>
+    match stepR d ("chain" :: rest) with
+    | (some d', a) =>
+      let n := (argI toks "cands" 4).toNat
+      (some { d' with sys := some n, x := { d'.x with yw := List.replicate (2 * n) 0, fw := 0 } }, a)
+    | r => r
+  | "sblk" :: rest =>
+    match d.bind (·.sys) with
+    | none => (d, if d.isSome then "nosys" else "nochain")
+    | some _ => stepR d ("block" :: rest)
+  | "awards" :: _ =>
+    match d, d.bind (·.sys) with
+    | some d, some n =>
+      let cb := intsOf ((arg? toks "cb").getD "")
+      let sup := intsOf ((arg? toks "sup").getD "")
+      let ps : List Prim := (cb.zipIdx.map (fun (w, k) => Prim.award k w)) ++ (sup.zipIdx.map (fun (w, k) => Prim.award (n + k) w))
+      let (s', x') := applyPrims (d.s, d.x) ps
+      (some { d with s := s', x := x' }, "ok")
+    | _, _ => (d, if d.isSome then "nosys" else "nochain")
+  | "sbal" :: _ =>
+    match d, d.bind (·.sys) with
+    | some d, some n => (some d, sbalLine d.s d.x n)
+    | _, _ => (d, if d.isSome then "nosys" else "nochain")
+  | "srecs" :: _ =>
+    match d, d.bind (·.sys) with
+    | some d, some n =>
+      match d.prev with
+      | none => (some d, "norecords")
+      | some (s0, x0) => (some d, srecsLine d.s d.x s0 x0 n)
+    | _, _ => (d, if d.isSome then "nosys" else "nochain")
+  | _ => stepR d toks
+
+def machine : Machine := { σ := Option DR, init := none, step := stepS }
 
 end Driver.C07
